@@ -17,9 +17,12 @@ def run_check(tier, seed, replay=None):
         mc = tlc_mc("MC_Storage.tla", "MC_Storage_%s.cfg" % tier, "c19_mc", edges_out=hist)
         hist2 = os.path.join(BUILD, "c19_kt.hist")
         mc2 = tlc_mc("MC_Storage.tla", "MC_Storage_%s_kt.cfg" % tier, "c19_mc_kt", edges_out=hist2)
-        mc = {"states": mc["states"] + mc2["states"], "transitions": mc["transitions"] + mc2["transitions"], "depth": max(mc["depth"], mc2["depth"]), "edges": mc["edges"] + mc2["edges"]}
+        hist3 = os.path.join(BUILD, "c19_near.hist")
+        mc3 = tlc_mc("MC_Storage.tla", "MC_Storage_%s_near.cfg" % tier, "c19_mc_near", edges_out=hist3)
+        mc = {"states": mc["states"] + mc2["states"] + mc3["states"], "transitions": mc["transitions"] + mc2["transitions"] + mc3["transitions"],
+              "depth": max(mc["depth"], mc2["depth"], mc3["depth"]), "edges": mc["edges"] + mc2["edges"] + mc3["edges"]}
         log("model: %s" % mc)
-        info = vh(["drive-storage", "--histories", hist, "--histories", hist2, "--random", "300" if tier == "quick" else "5000", "--seed", str(seed), "--out", trace])
+        info = vh(["drive-storage", "--histories", hist, "--histories", hist2, "--histories", hist3, "--random", "300" if tier == "quick" else "5000", "--seed", str(seed), "--out", trace])
     n, bad, dt = tlc_trace("StorageTrace.tla", "StorageTrace.cfg", trace, "c19_trace")
     log("trace: %d events, %d rejected, %.1fs" % (n, len(bad), dt))
     events = read_trace(trace) if bad else []
@@ -37,6 +40,6 @@ def run_check(tier, seed, replay=None):
     sample = [json.loads(l) for l in open(trace).readlines()[:4]]
     write_evidence("C19", tier, seed, {"states": mc["states"], "transitions": mc["transitions"], "traces_validated_against_impl": info["histories"],
         "samples": sample, "events_validated": n, "model": {"module": "spec/MC_Storage.tla", "config": "MC_Storage_%s.cfg" % tier, "depth": mc["depth"], "edges_replayed": mc["edges"]},
-        "exhaustive": False}, ["TLC 1.8.0", "element types: f64 with +0.0 / -0.0 (equal but distinguishable: a lookup must yield the stored one) and NaN, and a key/tag type whose equality is 'same key and different tag' (non-reflexive, yet stored values can equal the argument)"],
+        "exhaustive": False}, ["TLC 1.8.0", "element types: f64 with +0.0 / -0.0 (equal but distinguishable: a lookup must yield the stored one) and NaN, and a key/tag type whose equality is 'same key and different tag' (non-reflexive, yet stored values can equal the argument), and numbers equal iff at distance <= 1 (reflexive, symmetric, not transitive)"],
         time.time() - t0, len(rep.new))
     return rc
